@@ -86,7 +86,7 @@ macro_rules! c07_lockfree_recycle {
         }
     };
 }
-c07_lockfree_recycle!(c07_lockfree_recycle_s64, probe, 66, 64);
+c07_lockfree_recycle!(c07_lockfree_recycle_s64, thorough, 66, 64);
 c07_lockfree_recycle!(c07_lockfree_recycle_s256, probe, 66, 256);
 
 macro_rules! c07_lockfree_class {
@@ -105,9 +105,9 @@ macro_rules! c07_lockfree_class {
     };
 }
 // a freed block of one request size re-issued for another size of the same size class
-c07_lockfree_class!(c07_lockfree_class144, probe, 66, 129, 144, 129, 144, 1, 16);
-c07_lockfree_class!(c07_lockfree_class32, probe, 66, 25, 32, 25, 32, 1, 8);
-c07_lockfree_class!(c07_lockfree_class_cross, probe, 66, 1, 24, 9, 40, 1, 24);
+c07_lockfree_class!(c07_lockfree_class144, thorough, 66, 129, 144, 129, 144, 1, 16);
+c07_lockfree_class!(c07_lockfree_class32, thorough, 66, 25, 32, 25, 32, 1, 8);
+c07_lockfree_class!(c07_lockfree_class_cross, thorough, 66, 1, 24, 9, 40, 1, 24);
 c07_lockfree_recycle!(c07_lockfree_recycle_s8192, probe, 66, 8192);
 
 zv_harness! {
